@@ -101,6 +101,10 @@ CHECKS = {
             "exhaustive enumeration of all C(14,7)=3432 interleavings of two 7-step API session scripts (two instances in one process, both static libraries linked together) executed on the real libraries under the controlled scheduler; differential oracle against each instance's solo run",
             "For each instance pair (encoder/encoder with different configurations, decoder/decoder, encoder/decoder) every interleaving of the two scripts at API-call granularity is executed; both instances must return success everywhere and produce exactly their solo output; no crash or deadlock.",
             "API calls of the two instances are serialised (one application thread), overlapping calls are not explored; shared unsynchronised state is decided by its observable effect, not by a race detector", "4/C17"),
+    "C08": ("encdrv + decdrv + refdec", "exploration",
+            "bounded-exhaustive enumeration of SVT-encoded streams (configuration deviation bound 1 x sizes x contents x lengths); differential oracle: SVT decoder (both pipeline bit depths) vs libaom and dav1d, picture by picture",
+            "Every stream of the enumeration is decoded by the SVT decoder with is_16bit_pipeline 0 and 1 and by both reference decoders; picture count, order and every sample must agree, film grain included.",
+            "only streams the SVT encoder can produce (no independent encoder was bound): coding tools it never emits are not exercised; single-threaded decoding (C09 covers threads)", "4/C08"),
 }
 
 NOT_YET = {}
